@@ -35,6 +35,9 @@ func runC10(c *Ctx) {
 	runWsListenerQueue(c)
 	runInprocRendezvous(c)
 	runInprocPipes(c)
+	runReqCloseWakesSendAndRecv(c, 0, false)
+	runReqCloseWakesSendAndRecv(c, 1, false)
+	runReqCloseWakesSendAndRecv(c, 1, true)
 	runWsAcceptCloseRace(c)
 	defer func() { postCloseOps = false }()
 	n := 12
